@@ -125,17 +125,13 @@ pub fn run_pairs(ctx: &mut Ctx, pairs: &[Pair]) {
             }
         };
         let ia = ask(&p.a, &ra);
-        // the model reads the JSON form with a strict JSON parser; texts whose unknown members only serde's syntactic skipping
-        // accepts (ranges, nesting, lone surrogates) are judged against the compact side alone, which the model does answer
-        let ib = if p.name.starts_with("raw-extra-member:") { ia } else { ask(&p.b, &rb) };
+        let ib = ask(&p.b, &rb);
         res.push((ra, rb, ia, ib));
     }
     let resp = run_model(&reqs);
     for (p, (ra, rb, ia, ib)) in pairs.iter().zip(&res) {
         cmp_verify(ctx, &p.a, ra, &resp[ia.0], &resp[ia.1]);
-        if !p.name.starts_with("raw-extra-member:") {
-            cmp_verify(ctx, &p.b, rb, &resp[ib.0], &resp[ib.1]);
-        }
+        cmp_verify(ctx, &p.b, rb, &resp[ib.0], &resp[ib.1]);
         ctx.oracle_checks += 1;
         let class = p.name.split(':').next().unwrap_or("");
         ctx.count(&format!("case.{}", class));
@@ -383,6 +379,7 @@ pub fn run(ctx: &mut Ctx, replay: Option<&str>) {
         }
     }
 
+    let mut raw_attacks: Vec<Attack> = vec![];
     // 5. JSON texts that no serde_json::Value can express: unknown members whose raw text is a number outside every
     //    machine range, nesting beyond any recursion limit, escapes of lone surrogates, repeated unknown members; and the
     //    presentation whose only disclosure entry is the empty string (jwt~~kb)
@@ -399,6 +396,7 @@ pub fn run(ctx: &mut Ctx, replay: Option<&str>) {
             ("member-repeated-inside", "{\"k\":1,\"k\":2,\"\":{\"\":null}}".into()),
         ];
         let mut taken = 0;
+        let mut bad_texts: Vec<Attack> = vec![];
         for (k, (f, ps)) in flows.iter().zip(&presented).enumerate() {
             if taken >= ctx.tier.pick(6, 30) {
                 break;
@@ -429,6 +427,29 @@ pub fn run(ctx: &mut Ctx, replay: Option<&str>) {
                 ctx.count("transcoding.compact->json:+raw-extra-member");
                 pairs.push(Pair { name: format!("raw-extra-member:{}", name), a: compact.clone(), b: json_side, origin: json!({"flow": f.json(), "raw_extra_member": name}) });
             }
+            // unknown members that not even the syntactic skipping accepts: the JSON text must be refused (and the model agrees)
+            if taken <= 3 || ctx.tier == Tier::Thorough {
+                let bad_raws: [(&str, &str); 22] = [
+                    ("leading-zero", "01"), ("dot-without-digits", "1."), ("exponent-without-digits", "1e"), ("lone-minus", "-"), ("minus-zero-one", "-01"), ("plus-number", "+1"),
+                    ("unknown-escape", "\"\\x\""), ("short-unicode-escape", "\"\\u12\""), ("raw-control-character", "\"a\u{1}b\""), ("unterminated-string", "\"abc"),
+                    ("truncated-literal", "tru"), ("capital-literal", "True"), ("array-trailing-comma", "[1,]"), ("array-lone-comma", "[,]"), ("array-missing-comma", "[1 2]"),
+                    ("object-trailing-comma", "{\"a\":1,}"), ("object-missing-colon", "{\"a\" 1}"), ("object-number-key", "{1:2}"), ("unterminated-array", "[[1]"),
+                    ("mismatched-brackets", "[1}"), ("empty", ""), ("two-values", "1 2"),
+                ];
+                for (name, raw) in bad_raws.iter() {
+                    let text = format!("{{\"zz_unknown\":{},{}", raw, &base[1..]);
+                    bad_texts.push(Attack { name: format!("raw-extra-malformed:{}", name), args: VerifyArgs { input: text, fmt: Fmt::Json, ..va.clone() }, expect: Expect::Reject, origin: json!({"flow": f.json(), "raw_extra_member": name}), nontrivial: true });
+                }
+                // and the well-formed oddities once more on their own (the model now skips unknown members as serde does)
+                for (name, raw) in [("number-forms", "[-0, 0.0, 1E5, 1e+5, 1e-5, 0e0, -0.0e-0]"), ("nested-mix", "{\"a\":[{\"b\":[[],{}]}],\"a\":null}"), ("spaced", " \t\n [ 1 , { \"k\" : \"v\" } ] \r\n ")] {
+                    let text = format!("{{\"zz_unknown\":{},{}", raw, &base[1..]);
+                    let mut a = Attack { name: format!("raw-extra-wellformed:{}", name), args: VerifyArgs { input: text, fmt: Fmt::Json, ..va.clone() }, expect: Expect::Accept, origin: json!({"flow": f.json(), "raw_extra_member": name}), nontrivial: true };
+                    if !matches!(verify(&compact).out, Outcome::Ok(_)) {
+                        a.expect = Expect::Reject;
+                    }
+                    bad_texts.push(a);
+                }
+            }
             // the same jwt and kb with a lone empty disclosure entry, and with an empty entry after the genuine ones
             for (name, ds) in [("only-an-empty-disclosure-entry", vec![String::new()]), ("empty-entry-last", { let mut d = parts.disclosures.clone(); d.push(String::new()); d }), ("two-empty-entries", vec![String::new(), String::new()])] {
                 let q = Parts { jwt: parts.jwt.clone(), disclosures: ds, kb: parts.kb.clone() };
@@ -440,10 +461,12 @@ pub fn run(ctx: &mut Ctx, replay: Option<&str>) {
                 }
             }
         }
+        raw_attacks = bad_texts;
     }
     for chunk in pairs.chunks(3000) {
         run_pairs(ctx, chunk);
     }
+    crate::attack::run_attacks(ctx, &raw_attacks);
     // credentials with very many disclosures (limits on counts that exist in one parser only); the extracted model is
     // quadratic in the number of disclosures, so these pairs are judged on the implementation alone
     for (wi, n) in (if ctx.tier == Tier::Quick { vec![700usize] } else { vec![300, 700, 1400] }).into_iter().enumerate() {
